@@ -57,6 +57,8 @@ type Exec struct {
 	caseHint    *caseHint
 	knownWidth  map[int]int
 	collectLocs *[]Loc
+	verTops     map[int][]*Term // heap array version -> allocation marks of states it was part of
+	verTopSeen  map[[2]int]bool
 	loopFrames  []*loopFrameRec
 	inputDefs   []*Term // definitions of the replay constants (added to failing-obligation queries only)
 	unfolding   map[*ssa.Function]int
@@ -708,6 +710,19 @@ func (e *Exec) refFacts(t *Term, seen map[int]bool) {
 	}
 	for _, a := range t.args {
 		e.refFacts(a, seen)
+	}
+	if t.kind == kApp && t.op == "select" && len(t.args) == 2 && t.sort == "Slice" && len(e.c.facts[t.id]) == 0 && e.verTops != nil {
+		// a slice header read from the heap refers to memory allocated before the versions it is read from existed
+		c := e.c
+		var fs []*Term
+		for _, b := range heapBases(t.args[0]) {
+			for _, top := range e.verTops[b.id] {
+				fs = append(fs, c.Le(e.tm.SliceBase(c.Select(b, t.args[1])), top))
+			}
+		}
+		if len(fs) > 0 {
+			c.AddFact(t, c.And(fs...))
+		}
 	}
 	if t.kind == kApp && len(t.args) == 2 && len(e.c.facts[t.id]) == 0 {
 		c := e.c
